@@ -27,7 +27,10 @@ LEVEL_NOTE = ("Assumes tokens differ only in (pygments kind, value) as far as pr
               "(checked by comparing accept vectors for depths cap..cap+5).")
 
 DEPTH_CAP = 3
-KINDS = ["kw", "id", "p", "op", "lit", "txt"]
+# token kinds: the six base types the predicates test for and, for each of the four they distinguish, one STRICT sub-type as the lexers
+# emit them (Keyword.Reserved / .Declaration, Name.Function, Punctuation.Marker, Operator.Word, String): a predicate that
+# compares types for equality instead of containment separates a sub-type from its base
+KINDS = ["kw", "id", "p", "op", "lit", "txt", "kwr", "kwd", "idf", "pm", "opw", "str"]
 SEVEN = {"Python", "JavaScript", "TypeScript", "Java", "C", "C++", "C#"}
 
 
@@ -79,7 +82,8 @@ def tok(code, pos=0):
     from codelimit.common.Token import Token
 
     kind, _, value = code.partition(":")
-    ty = {"kw": K, "id": N, "p": P, "op": O, "lit": Literal.Number, "txt": Text}[kind]
+    ty = {"kw": K, "id": N, "p": P, "op": O, "lit": Literal.Number, "txt": Text, "kwr": K.Reserved, "kwd": K.Declaration,
+          "idf": N.Function, "pm": P.Marker, "opw": O.Word, "str": Literal.String}[kind]
     return Token(Location(1, pos + 1), ty, value)
 
 
